@@ -146,6 +146,28 @@ def replay_case(arg):
                 fail('Differential', 'dpsi', dict(model=name, got=np.asarray(dpsi).tolist(), expected=exp_dpsi.tolist()))
             if np.asarray(dth).shape != exp_dtheta.shape or not interp.close(np.asarray(dth, dtype=float), exp_dtheta):
                 fail('Differential', 'dtheta', dict(model=name, got=np.asarray(dth).tolist(), expected=exp_dtheta.tolist()))
+            # ---- outside the support for ONE individual only: the covariates drive a selected scale parameter of the first
+            # individual below zero; the underlying model scores that individual -inf, so must the covariate model (value
+            # and score returned with the sensitivities)
+            scale_slots = [s_ for s_, (p_, d_) in enumerate(norm0) if p_ == 1] if nper == 2 else []
+            if scale_slots and ni >= 2:
+                s_ = scale_slots[0]
+                d_ = norm0[s_][1]
+                cv2 = np.zeros((ni, nc))
+                cv2[0, 0] = 1.0
+                be2 = np.zeros(rec['nbeta'])
+                be2[s_ * nc] = -(th[1, d_] + 0.3)
+                full2 = np.concatenate([th.flatten(), be2])
+                with warnings.catch_warnings():
+                    warnings.simplefilter('ignore')
+                    ref0 = base.compute_log_likelihood(np.concatenate([th[0], [v - (th[1, d_] + 0.3) if q == d_ else v
+                                                                                 for q, v in enumerate(th[1])]]), obs[0][None, :])
+                    got2 = cpm.compute_log_likelihood(full2.copy(), obs.copy(), cv2.copy())
+                    sc2 = cpm.compute_sensitivities(full2.copy(), obs.copy(), cv2.copy())[0]
+                cnt['one_individual_outside_support'] = cnt.get('one_individual_outside_support', 0) + 1
+                if np.isneginf(ref0) and not (np.isneginf(got2) and np.isneginf(sc2)):
+                    fail('Differential', 'one_individual_outside_support', dict(model=name, got=[float(got2), float(sc2)],
+                                                                                 expected='-inf', selection=norm0))
         except Exception as e:
             fail('Differential', type(e).__name__, dict(model=name, error=repr(e)))
     return fails, cnt
